@@ -54,7 +54,7 @@ def case_strategy(opts):
         n = draw(st.sampled_from([0, 1, 1, 2, 2, 3, 3, 4, 4, 5]))
         spell = draw(st.sampled_from(["lower", "upper", "mixed", "enum"]))
         kind, cache = draw(st.sampled_from(STORES))
-        history = draw(st.sampled_from(["fresh", "after_old", "after_old", "twice", "after_longer"]))
+        history = draw(st.sampled_from(["fresh", "after_old", "after_old", "twice", "after_longer", "orphan_blobs"]))
         old = prog
         for _ in range(draw(st.integers(1, 2))):
             old = M.apply_edit(old, draw(G.edits(old, root, kinds=["setvar", "bump", "setlit"], opts=opts)))
@@ -129,13 +129,20 @@ def run_history(case, scratch, with_restricted):
                 if r0["exc"] is not None:
                     raise Violation(f"evaluating the producer raised {r0['exc']['type']}: {r0['exc']['msg'][:200]}", case)
 
-        if case["history"] in ("after_old", "twice"):
+        if case["history"] in ("after_old", "twice", "orphan_blobs"):
             sess.write(case["old"])
             sess.start()
             produce(case["old"])
             r = sess.eval(root, "eval")
             if r["exc"] is not None:
                 raise Violation(f"full evaluation of the earlier version raised {r['exc']['type']}: {r['exc']['msg'][:200]}", case)
+            if case["history"] == "orphan_blobs" and kind != "memory":
+                # every blob loses its metadata (what a writer killed between its two renames leaves behind)
+                import glob
+
+                for m_ in glob.glob(os.path.join(sess.store_dir, "internal", "blobs", "*.meta")):
+                    os.remove(m_)
+                sess.restart()
             sess.inproc_edit(prog)
         else:
             sess.write(prog)
